@@ -83,6 +83,40 @@ def drive(ctx, wd, tag, case, resume, crash_at=-1, mode="kill", frac=0.5):
     return rep
 
 
+def run_batch(ctx, path, specs):
+    """Several complete (never killed) runs inside ONE driver process (JAX imported once)."""
+    for sp in specs:
+        os.makedirs(os.path.dirname(sp["out"]), exist_ok=True)
+        if os.path.exists(sp["out"]):
+            os.remove(sp["out"])
+    os.makedirs(os.path.dirname(path), exist_ok=True)
+    json.dump(specs, open(path, "w"))
+    try:
+        p = subprocess.run(["/venv/bin/python", DRIVER, "--batch", path], env=drv_env(ctx), stdout=subprocess.PIPE,
+                           stderr=subprocess.STDOUT, timeout=1500, text=True)
+        rc, out = p.returncode, p.stdout
+    except subprocess.TimeoutExpired:
+        rc, out = 124, "timeout"
+    if rc != 0 or not os.path.exists(path + ".rcs") or any(json.load(open(path + ".rcs"))):
+        raise C.MachineryError("C24 batch driver failed (rc=%s, %s):\n%s" % (rc, path, out[-2000:]))
+    reps = []
+    for sp in specs:
+        rep = json.load(open(sp["out"]))
+        rep["rc"] = 0
+        if not os.path.realpath(rep.get("nifty_file", "")).startswith(os.path.realpath(ctx.repo) + os.sep):
+            raise C.MachineryError("C24 driver imported nifty from %s, not from %s" % (rep.get("nifty_file"), ctx.repo))
+        reps.append(rep)
+    return reps
+
+
+def plain_spec(wd, tag, case, resume, odir=None, snap_rule=None):
+    sp = {"odir": odir or os.path.join(wd, "odir"), "out": os.path.join(wd, "out_%s.json" % tag), "resume": resume,
+          "crash_at": -1, "mode": "kill", "frac": 0.0, "case": case}
+    if snap_rule:
+        sp["snap_rule"] = snap_rule
+    return sp
+
+
 def run_chain(ctx, wd, case, cps, r0=False):
     """Fresh run (resume=r0) killed at cps[0], restarted with resume=True and killed at cps[1], ...,
     then restarted with resume=True and left alone.  Returns the list of reports (last = final)."""
@@ -133,24 +167,14 @@ def open_intervals(ops):
 
 
 def crash_points(ops, level):
-    """Crash points of a traced run.  Every level: kill before every operation and after the last
-    one.  light: + one torn variant of every state-file write.  medium: + buffers flushed wherever a
-    state file is open.  full: flush wherever any file is open, three torn fractions for state-file
-    writes, one for log writes."""
-    n = len(ops)
+    """All crash points of a traced run at the given level (rule shared with the driver, which takes
+    the snapshots: harness/c24_driver.point_variants)."""
+    from ..c24_driver import point_variants
     opened = open_intervals(ops)
-    pts = [[(k, "kill", 0.0)] for k in range(n + 1)]
-    for k in range(n):
-        files = opened[k]
-        state = any(f != "minisanity.txt" for f in files)
-        if files and ((level == "medium" and state) or level == "full"):
-            pts.append([(k, "flush", 0.0)])
-        if ops[k][0] == "write":
-            if ops[k][1] != "minisanity.txt":
-                for fr in ([0.03, 0.5, 0.97] if level == "full" else [0.5]):
-                    pts.append([(k, "torn", fr)])
-            elif level == "full":
-                pts.append([(k, "torn", 0.5)])
+    pts = []
+    for k, o in enumerate(ops):
+        pts += [[(k, m, fr)] for m, fr in point_variants(o[0], o[1], opened[k], level)]
+    pts.append([(len(ops), "kill", 0.0)])
     return pts
 
 
@@ -233,6 +257,8 @@ def chain_check(old, extras, n, r0, cps, reps):
         before = cps_coq(cps[:i])
         resume = r0 if i == 0 else True
         head = "%s %s %s %s %s" % (C.cbool(old), ex, C.cnat(n), C.cbool(r0), before)
+        if rep.get("snapshot"):
+            continue                      # prefix of a complete traced run whose trace is checked on its own
         t = toks(rep["ops"])
         if t is None:
             return "false"
@@ -314,29 +340,12 @@ class C24(C.Check):
     def wd(self, ctx, name):
         return os.path.join(work_root(ctx), name)
 
-    def reference(self, ctx, ci, cfg, twice=True):
-        with ThreadPoolExecutor(2) as ex:
-            a = ex.submit(run_chain, ctx, self.wd(ctx, "ref%d_a" % ci), cfg, [], False)
-            b = ex.submit(run_chain, ctx, self.wd(ctx, "ref%d_b" % ci), cfg, [], False) if twice else a
-            ra, rb = a.result()[0], b.result()[0]
-        if ra["outcome"] != "ok" or rb["outcome"] != "ok":
-            raise C.MachineryError("C24: the uninterrupted reference run failed: %r" % ({k: ra.get(k) for k in ("outcome", "error", "detail")},))
-        if ra["final"]["hash"] != rb["final"]["hash"] or ra["ops"] != rb["ops"]:
-            raise C.MachineryError("C24: two uninterrupted runs of the same configuration differ; results cannot be compared bit for bit")
-        return ra
-
-    def run_points(self, ctx, ci, cfg, ref, points, r0=False, tag="p"):
-        def job(i_cps):
-            i, cps = i_cps
-            return run_chain(ctx, self.wd(ctx, "%s%d_%d" % (tag, ci, i)), cfg, cps, r0)
-        with ThreadPoolExecutor(WORKERS) as ex:
-            allreps = list(ex.map(job, list(enumerate(points))))
-        out = []
-        for cps, reps in zip(points, allreps):
-            o = (cfg, ref, cps, r0, reps)
-            self.obs.append(o)
-            out.append(o)
-        return out
+    def pseudo_killed(self, first, k):
+        """Report of the (not separately executed) run that was killed before its operation k: the
+        snapshot was taken by the complete traced run `first` at exactly that instant."""
+        ops = first["ops"]
+        return {"outcome": "killed", "killed_before": list(ops[k][:2]) if k < len(ops) else ["end", ""],
+                "ops": ops[:k], "pre": first["pre"], "snapshot": True}
 
     # -- correspondence ----------------------------------------------------------------------
     def correspondence(self, ctx, res):
@@ -346,12 +355,11 @@ class C24(C.Check):
         cc = os.path.join(ctx.run_dir(), "jaxcache")
         if os.path.isdir(cc) and len(os.listdir(cc)) > 3000:
             shutil.rmtree(cc, ignore_errors=True)
-        cfgs = gen_configs(ctx)
         checks, meta = [], []
         rng = ctx.rng(2400)
         modes = {}
         nontrivial = set()
-        # groups: (configuration, corpus crash chains or None = full enumeration)
+        # groups: (configuration, corpus crash chains or None = full enumeration, plan)
         groups = []
         for e in ctx.corpus():
             key = json.dumps(e["case"], sort_keys=True)
@@ -361,50 +369,111 @@ class C24(C.Check):
                     break
             else:
                 groups.append((e["case"], [(e["cps"], bool(e.get("r0", False)))], key))
-        groups += [(c, None, (lvl, nch, wr)) for c, lvl, nch, wr in cfgs]
-        for ci, (cfg, corp, plan) in enumerate(groups):
-            ref = self.reference(ctx, ci, cfg, twice=corp is None)
-            self.refs.append((cfg, ref))
+        ncorp = len(groups)
+        groups += [(c, None, (lvl, nch, wr)) for c, lvl, nch, wr in gen_configs(ctx)]
+
+        # phase 1: uninterrupted runs -- a plain one (own process) and, for generated configurations,
+        # one that takes a snapshot of the directory at every crash point (and one started with resume=True)
+        with ThreadPoolExecutor(WORKERS) as ex:
+            fut = {}
+            for gi, (cfg, corp, plan) in enumerate(groups):
+                fut[(gi, "a")] = ex.submit(run_chain, ctx, self.wd(ctx, "ref%d_a" % gi), cfg, [], False)
+                if corp is None:
+                    fut[(gi, "s")] = ex.submit(run_batch, ctx, self.wd(ctx, "ref%d_s.json" % gi), [plain_spec(
+                        self.wd(ctx, "ref%d_s" % gi), "ref", cfg, False, snap_rule={"level": plan[0], "dir": self.wd(ctx, "snap%d" % gi)})])
+                    if plan[2]:
+                        fut[(gi, "r")] = ex.submit(run_batch, ctx, self.wd(ctx, "ref%d_r.json" % gi), [plain_spec(
+                            self.wd(ctx, "ref%d_r" % gi), "ref", cfg, True, snap_rule={"level": "kill", "dir": self.wd(ctx, "snapr%d" % gi)})])
+            first = {k: f.result()[0] for k, f in fut.items()}
+        refs = []
+        for gi, (cfg, corp, plan) in enumerate(groups):
+            ra = first[(gi, "a")]
+            if ra["outcome"] != "ok":
+                raise C.MachineryError("C24: the uninterrupted reference run failed: %r" % ({k: ra.get(k) for k in ("outcome", "error", "detail")},))
+            rb = first.get((gi, "s"))
+            if rb is not None and (rb["outcome"] != "ok" or ra["final"]["hash"] != rb["final"]["hash"] or ra["ops"] != rb["ops"] or ra["iters"] != rb["iters"]):
+                raise C.MachineryError("C24: two uninterrupted runs of the same configuration differ; results cannot be compared bit for bit")
+            rr = first.get((gi, "r"))
+            if rr is not None and (rr["outcome"] != "ok" or ra["final"]["hash"] != rr["final"]["hash"]):
+                raise C.MachineryError("C24: the uninterrupted run started with resume=True differs from the one started with resume=False")
+            if ra["shadow_mismatch"]:
+                res.add_broken("correspondence", "untraced file-system activity in the output directory",
+                               {"files": ra["shadow_mismatch"], "cfg": cfg})
+            refs.append(ra)
+            self.refs.append((cfg, ra))
+
+        # phase 2: a restart on every snapshot (several per driver process), real kill chains (own processes)
+        snaps, real = [], []          # (gi, cps, r0, spec) / (gi, cps, r0, workdir)
+        for gi, (cfg, corp, plan) in enumerate(groups):
+            ref = refs[gi]
+            if corp is not None:
+                for i, (cps, r0) in enumerate(corp):
+                    real.append((gi, sanitize(cps, ref["ops"]), r0, self.wd(ctx, "real%d_%d" % (gi, i))))
+                continue
+            lvl, nch, with_r = plan
+            pts = crash_points(ref["ops"], lvl)
+            taken = first[(gi, "s")]["snaps_taken"]
+            if sorted((t["k"], t["mode"], round(t["frac"], 4)) for t in taken) != sorted((p[0][0], p[0][1], round(p[0][2], 4)) for p in pts):
+                raise C.MachineryError("C24: the snapshots taken do not match the crash points of the traced run")
+            for t in taken:
+                snaps.append((gi, [(t["k"], t["mode"], t["frac"])], False,
+                              plain_spec(os.path.dirname(t["dest"]), "final", cfg, True, odir=t["dest"])))
+            if with_r:
+                for t in first[(gi, "r")]["snaps_taken"][::3]:
+                    snaps.append((gi, [(t["k"], t["mode"], t["frac"])], True,
+                                  plain_spec(os.path.dirname(t["dest"]), "final", cfg, True, odir=t["dest"])))
+            step = 7 if ctx.quick else 5
+            chains = [p for p in pts[2::step]] + chain_points(ctx, ref["ops"], rng, nch)
+            for i, cps in enumerate(chains):
+                real.append((gi, cps, False, self.wd(ctx, "real%d_%d" % (gi, i))))
+        nb = max(1, min(WORKERS - 2, (len(snaps) + 3) // 4))
+        slices = [snaps[i::nb] for i in range(nb)] if snaps else []
+        with ThreadPoolExecutor(WORKERS) as ex:
+            fb = [ex.submit(run_batch, ctx, self.wd(ctx, "batch_%d.json" % i), [x[3] for x in sl]) for i, sl in enumerate(slices)]
+            fr = [ex.submit(run_chain, ctx, wd, groups[gi][0], cps, r0) for gi, cps, r0, wd in real]
+            breps = [f.result() for f in fb]
+            rreps = [f.result() for f in fr]
+        results, snapsha = [], {}
+        for sl, reps in zip(slices, breps):
+            for (gi, cps, r0, sp), rep in zip(sl, reps):
+                src = first[(gi, "r")] if r0 else refs[gi]
+                results.append((gi, [tuple(c) for c in cps], r0, [self.pseudo_killed(src, cps[0][0]), rep], "snapshot"))
+                snapsha[(gi, r0, cps[0][0], cps[0][1], round(cps[0][2], 4))] = rep["pre"]["dir_sha"]
+        n_real = 0
+        for (gi, cps, r0, wd), reps in zip(real, rreps):
+            cps = [tuple(c) for c in cps]
+            n_real += 1
+            if len(cps) == 1 and reps[0]["outcome"] == "killed":
+                want = snapsha.get((gi, r0, cps[0][0], cps[0][1], round(cps[0][2], 4)))
+                if want is not None and want != reps[-1]["pre"]["dir_sha"]:
+                    raise C.MachineryError("C24: the directory left by a real kill before operation %d (%s) differs from the "
+                                           "snapshot of the same crash point" % (cps[0][0], cps[0][1]))
+            results.append((gi, cps, r0, reps, "real"))
+        for gi, (cfg, corp, plan) in enumerate(groups):
+            ref = refs[gi]
             n = cfg["n_iter"]
             extras = extras_of(ref["ops"], n)
-            ex = C.clist([C.cnat(e) for e in extras])
+            ex_ = C.clist([C.cnat(e) for e in extras])
             t = toks(ref["ops"])
-            head = "false %s %s false []" % (ex, C.cnat(n))
-            # 1. the uninterrupted run: operation sequence, outcome, fail-closed shadow
+            head = "false %s %s false []" % (ex_, C.cnat(n))
             checks.append("false" if t is None else "(trace_ok %s false %s) && (outcome_ok %s false (Some %s))"
                           % (head, t, head, C.cnat(ref["final"]["nit"])))
             meta.append({"what": "operation sequence of the uninterrupted run", "cfg": cfg, "ops": ref["ops"]})
-            if ref["shadow_mismatch"]:
-                res.add_broken("correspondence", "untraced file-system activity in the output directory",
-                               {"files": ref["shadow_mismatch"], "cfg": cfg})
-            # 2. crash points: stored failing cases, or the full enumeration plus crash chains
-            runs = []
-            if corp is not None:
-                for r0 in (False, True):
-                    pts = [sanitize(cps, ref["ops"]) for cps, r in corp if r == r0]
-                    if pts:
-                        runs.append((pts, r0, "k%d" % r0))
-            else:
-                lvl, nch, with_r = plan
-                pts = crash_points(ref["ops"], lvl) + chain_points(ctx, ref["ops"], rng, nch)
-                runs.append((pts, False, "p"))
-                if with_r:
-                    # a first run started with resume=True on an empty directory (common usage)
-                    # (its operation list lacks the truncation of the log: kill points only)
-                    runs.append(([p for p in crash_points(ref["ops"], "light") if p[0][1] == "kill"][::3], True, "r"))
-            for pts, r0, tag in runs:
-                for (cfg_, ref_, cps, r0_, reps) in self.run_points(ctx, ci, cfg, ref, pts, r0=r0, tag=tag):
-                    checks.append(chain_check(False, extras, n, r0, cps, reps))
-                    sm = state_file_mismatch(ref, reps)
-                    if sm and not any(b["name"] == "content of last.pkl vs model" for b in res.broken):
-                        res.add_broken("correspondence", "content of last.pkl vs model", {"what": sm, "cfg": cfg, "cps": cps})
-                    meta.append({"what": "crash chain" + (", first run with resume=True" if r0 else ""), "cfg": cfg,
-                                 "cps": cps, "pre": reps[-1]["pre"], "final_ops": reps[-1]["ops"],
-                                 "outcome": reps[-1]["outcome"]})
-                    for k, m, _ in cps:
-                        modes[m] = modes.get(m, 0) + 1
-                    if any(0 < k < len(ref["ops"]) for k, _, _ in cps):
-                        nontrivial.add((ci, r0, tuple(cps)))
+        for gi, cps, r0, reps, how in results:
+            cfg, ref = groups[gi][0], refs[gi]
+            n = cfg["n_iter"]
+            extras = extras_of(ref["ops"], n)
+            self.obs.append((cfg, ref, cps, r0, reps))
+            checks.append(chain_check(False, extras, n, r0, cps, reps))
+            sm = state_file_mismatch(ref, reps)
+            if sm and not any(b["name"] == "content of last.pkl vs model" for b in res.broken):
+                res.add_broken("correspondence", "content of last.pkl vs model", {"what": sm, "cfg": cfg, "cps": cps})
+            meta.append({"what": "crash chain (%s)" % how + (", first run with resume=True" if r0 else ""), "cfg": cfg,
+                         "cps": cps, "pre": reps[-1]["pre"], "final_ops": reps[-1]["ops"], "outcome": reps[-1]["outcome"]})
+            for k, m, _ in cps:
+                modes[m] = modes.get(m, 0) + 1
+            if any(0 < k < len(ref["ops"]) for k, _, _ in cps):
+                nontrivial.add((gi, r0, tuple(cps)))
         bad = C.eval_cases(self.prop, "corr", HEADER, checks)
         for i in bad[:4]:
             d = dict(meta[i])
@@ -413,11 +482,14 @@ class C24(C.Check):
         res.coverage.update({
             "evaluations": len(checks), "distinct_nontrivial": len(nontrivial),
             "rule": "per configuration: the traced operation sequence of the uninterrupted run, then every crash point "
-                    "(kill before each operation and after the last; buffers flushed where a file is open; torn writes) "
-                    "and random double/triple crash chains, each executed for real and compared with the model on "
+                    "(kill before each operation and after the last; buffers flushed where a file is open; torn writes; the "
+                    "directory is the snapshot taken by the traced run at that instant; a spread of points, the corpus and all "
+                    "double/triple crash chains by really killing the process, cross-checked against the snapshot), "
+                    "each restarted for real and compared with the model on "
                     "directory classification, operation sequence of the restart and outcome; non-trivial = killed strictly inside the run; distinct by (configuration, crash chain)",
             "samples": [{"cps": m.get("cps"), "pre": m.get("pre"), "outcome": m.get("outcome")} for m in meta[8:11]],
-            "input_distribution": {"configurations": len(groups), "corpus_cases": len(groups) - len(cfgs), "crash_chains": len(self.obs), "by_mode": modes,
+            "input_distribution": {"configurations": len(groups), "corpus_cases": ncorp, "crash_chains": len(self.obs),
+                                   "really_killed_chains": n_real, "by_mode": modes,
                                    "ops_per_run": [len(r["ops"]) for _, r in self.refs]},
             "disagreements": len(bad), "exhaustive": "all crash points of each traced run",
         })
@@ -439,15 +511,17 @@ class C24(C.Check):
                 res.add_failing(sig, f[1], {"case": cfg, "cps": [list(c) for c in cps], "r0": r0})
         if budget > 1 and not res.failing and self.refs:
             # widen: all torn fractions and log-file points of the first configuration
-            cfg, ref = self.refs[0]
+            cfg, ref = self.refs[-1]
             done = {tuple(c) for (_, _, c, _, _) in self.obs}
             pts = [p for p in crash_points(ref["ops"], "full") if tuple(p) not in done]
             pts += chain_points(ctx, ref["ops"], ctx.rng(2401), 12)
-            for (cfg_, ref_, cps, r0, reps) in self.run_points(ctx, 0, cfg, ref, pts, tag="w"):
+            with ThreadPoolExecutor(WORKERS) as ex:
+                allreps = list(ex.map(lambda a: run_chain(ctx, self.wd(ctx, "w%d" % a[0]), cfg, a[1], False), list(enumerate(pts))))
+            for cps, reps in zip(pts, allreps):
                 n += 1
                 f = direct_failure(ref, reps)
                 if f:
-                    res.add_failing(signature(f[0], reps), f[1], {"case": cfg, "cps": [list(c) for c in cps], "r0": r0})
+                    res.add_failing(signature(f[0], reps), f[1], {"case": cfg, "cps": [list(c) for c in cps], "r0": False})
                     break
         res.coverage["impl_property_evaluations"] = n
         shutil.rmtree(work_root(ctx), ignore_errors=True)
